@@ -423,8 +423,6 @@ func (f *fixture) cleanup(clients []*cli) {
 		c := count()
 		return c.starts == 0 && c.startPending == 0 && c.handlers == 0 && c.readers == 0 && c.pfreaders == 0
 	})
-	f.a.JobQueue = nil
-	f.a.Tasks = nil
 }
 
 func unstick(m *sync.Mutex) {
